@@ -94,6 +94,14 @@ var BytesSliceFunc = function.New(&function.Spec{
 			)
 		}
 
+		if length > len(*bufPtr)-offset {
+			// (checked before adding, because offset + length can overflow)
+			return cty.NilVal, fmt.Errorf(
+				"offset %d + length %d is greater than total buffer length %d",
+				offset, length, len(*bufPtr),
+			)
+		}
+
 		end := offset + length
 
 		if end > len(*bufPtr) {
